@@ -204,12 +204,22 @@ func TestRun(t *testing.T) {
 		invocations := 0
 		for _, g := range regs {
 			pp := g.text
-			if err := router.Handle(pp, mux.HandlerFunc(func(w mux.ResponseWriter, m *mux.Message) {
+			h := mux.HandlerFunc(func(w mux.ResponseWriter, m *mux.Message) {
 				hit = pp
 				invocations++
 				gotVars = m.RouteParams.Vars
 				gotParams = *m.RouteParams
-			})); err != nil {
+			})
+			var err error
+			func() {
+				defer func() {
+					if e := recover(); e != nil {
+						err = fmt.Errorf("panic: %v", e)
+					}
+				}()
+				err = router.Handle(pp, h)
+			}()
+			if err != nil {
 				rec.Violation("C17/handle-error", fmt.Sprintf("Handle(%q): %v", pp, err), nil)
 				return
 			}
@@ -495,7 +505,14 @@ func concurrent(rec *vr.Rec, seed int64) {
 						st.mu.Lock()
 						st.maybe = append(st.maybe, [2]int64{t0, open})
 						st.mu.Unlock()
-						_ = router.Handle(pats[i].text, handlers[i])
+						func() {
+							defer func() {
+								if e := recover(); e != nil {
+									rec.Violation("C17/handle-panic", fmt.Sprintf("Handle(%q) panicked: %v", pats[i].text, e), nil)
+								}
+							}()
+							_ = router.Handle(pats[i].text, handlers[i])
+						}()
 						t1 := clock.Add(1)
 						st.mu.Lock()
 						st.sure = append(st.sure, [2]int64{t1, open})
